@@ -42,7 +42,7 @@ FAMILIES = ["scalar", "scalar", "scalar_matrix1", "blocks", "matrix_fd", "mask"]
 
 def plan(tier, seed):
     rng = rng_for(7, seed)
-    fams = ["bosons", "fermions", "mixed", "spin", "ladder", "bosons", "fermions"]
+    fams = ["bosons", "fermions", "mixed", "spin", "ladder", "bosons", "ladder", "fermions"]
     return [dict(case=int(rng.integers(0, 2**31)), family=FAMILIES[i % len(FAMILIES)], modes=fams[i % len(fams)], thorough=(tier == "thorough"))
             for i in range(BUDGET[tier]["cases"])]
 
@@ -50,6 +50,9 @@ def plan(tier, seed):
 def _reference(M, H0m, H1m, keep, orders):
     E = np.diag(H0m).real
     deg = np.abs(E[:, None] - E[None, :]) < 1e-9
+    if np.any(deg & ~keep & (np.abs(H1m) > 0)):
+        # two levels that the perturbation couples directly are degenerate: outside the property's domain
+        raise Inconclusive("accidental degeneracy between levels coupled by the perturbation (outside the domain)")
     keep = keep | deg
     with np.errstate(all="ignore"):
         return ref_solve({(0,): np.diag(E).astype(complex), (1,): H1m}, keep, orders, hermitian=True, exact=False)
@@ -64,7 +67,7 @@ def run_case(spec):
     counters = Counter()
     family = spec["family"]
     g = sympy.Symbol("g", real=True)
-    ops = secondq.modes(rng, spec["modes"] if family in ("scalar", "scalar_matrix1") else "bosons" if family == "mask" else str(rng.choice(["bosons", "mixed", "spin"])))
+    ops = secondq.modes(rng, spec["modes"] if family in ("scalar", "scalar_matrix1") else "bosons" if family == "mask" else str(rng.choice(["bosons", "mixed", "spin", "ladder"])))
     if family == "mask":
         ops = [BosonOp("a")]
     ops = sorted(ops, key=lambda op: (generator_types.index(type(op)), str(op.name)))
@@ -236,7 +239,7 @@ def run_case(spec):
 def finalize(c, tier, evaluations, distinct):
     reasons = []
     need = dict(matrix_elements_compared=2000, operator_identities_checked=200, family_scalar=20, family_blocks=8, family_matrix_fd=8, family_mask=8,
-                stat_BosonOp=30, stat_FermionOp=15)
+                stat_BosonOp=30, stat_FermionOp=15, stat_LadderOp=10, stat_SigmaMinus=10)
     for k, v in need.items():
         if c.get(k, 0) < v:
             reasons.append(f"{k} observed only {c.get(k, 0)} (< {v})")
